@@ -161,9 +161,11 @@ def gen(ctx):
                     if tail.isascii():
                         cases.append((cfg, {"op": "incr", "k": k.encode(), "d": 1, "nr": False}))
     keys = [b"", "", b" ", " ", b"\r\n", "\t\n", b"k", "k", "k k", b"k\r\nset x 0 0 1\r\nX", "é", "€" * 83, "€" * 84, b"k" * 250, b"k" * 251,
-            "k" * 249, b"\x00", b"a\x00b", b"noreply", "delete", b"\x7f\x01", "\x85", "k "]
+            "k" * 249, b"\x00", b"a\x00b", b"noreply", "delete", b"\x7f\x01", "\x85", "k ",
+            # text with more than one Unicode spelling: the key on the wire is the UTF-8 form of the text as given
+            "e\u0301", "cafe\u0301", "A\u030a", "\u1100\u1161\u11a8", "\u212b"]
     vals = [b"", b"v", b"\r\n", b"x\r\nset y 0 0 1\r\nINJECTED\r\n", b"END\r\n", b"VALUE k 0 1\r\n", "text", "é", 5, -7, 10 ** 30, b"\x00\xff" * 10]
-    ints = [0, 1, -1, 2 ** 31, 2 ** 32 - 1, -2 ** 63, 2 ** 63 - 1, 2 ** 64 - 1, "5", 1.5, None, b"1"]
+    ints = [0, 1, -1, 2 ** 31, 2 ** 32 - 1, -2 ** 63, 2 ** 63 - 1, 2 ** 64 - 1, "5", 1.5, None, b"1", 60.0, 0.0, -2.0, 2.0 ** 40]      # (integral floats are floats)
     cass = [0, 1, 2 ** 64 - 1, "12", b"007", "x", b"", "", -1, 1.5, None, "٣", b"1 2", "1\r\n"]
     # long multi-key calls: every key is validated before anything is written, however long the list and wherever the bad key sits
     for cfg in cfgs[:2]:
